@@ -6,7 +6,7 @@ import ast
 from sa import terms as T
 from sa.core import AnalysisError
 from sa.effects import Effects, PRMS_GLOBAL
-from sa.terms import tag
+from sa.terms import tag, C
 
 _CACHE = {}
 
@@ -108,3 +108,23 @@ def implied_by(lit, guard) -> bool:
     if tag(guard) == 'and':
         return all(implied_by(lit, x) for x in guard[1])
     return False
+
+
+def nonempty_arg(cond):
+    """x when cond says "x is not empty": 0 < len(x), len(x) != 0, 1 <= len(x), not x.empty; else None."""
+    c = cond
+    LEN = ('g', 'builtins.len')
+    if tag(c) == 'cmp':
+        op, a, b = c[1], c[2], c[3]
+        def ln(t):
+            return t[2][0] if tag(t) == 'call' and t[1] == LEN and t[2] else None
+        if op == 'lt' and a == C(0) and ln(b) is not None:
+            return ln(b)
+        if op == 'le' and a == C(1) and ln(b) is not None:
+            return ln(b)
+        if op == 'ne' and C(0) in (a, b):
+            other = b if a == C(0) else a
+            return ln(other)
+    if tag(c) == 'not' and tag(c[1]) == 'attr' and c[1][2] == 'empty':
+        return c[1][1]
+    return None
